@@ -371,6 +371,8 @@ def resume_value_forwarding(chk: Check, rule: str) -> None:
     chk.ob(rule, we, ok_null, 'resume value forwarded to the continuation exactly when it is not NULL '
            '(f(v) after resume(v), f() after resume())', kind='resume-value-forwarded')
     resume_value_reaches_future(chk, rule)
+    from .common import event_guard_accepts_subclasses
+    event_guard_accepts_subclasses(chk, rule)
     # "f() if resumed without a value" is decided by ``value == NULL``: the sentinel must equal nothing but itself
     nul = [c for c in prog.all_classes() if c.module.short == 'lang' and c.name.strip('_') == 'NULL']
     for c in nul:
